@@ -206,6 +206,8 @@ impl Watcher for INotifyWatcher {
             Err(simrt::vfs::WatchError::NotFound) => {
                 Err(Error::io(std::io::Error::from_raw_os_error(2)).add_path(path.to_path_buf()))
             }
+            // ENOSPC from inotify_add_watch is what notify 6.1.1 turns into MaxFilesWatch
+            Err(simrt::vfs::WatchError::Limit) => Err(Error::new(ErrorKind::MaxFilesWatch).add_path(path.to_path_buf())),
         }
     }
 
